@@ -144,6 +144,9 @@ add("k_below_blocking_small", MB, FW, ["C03", "C07", "C05"], cap_s=900, mem_gb=1
 add("k_below_other", MB, FW, ["C07", "C04", "C05"], cap_s=120, group="fw_l0_other", owner="C01",
     encodes=["Framework::below_action_limits"], bounds="timer / cancel / no action, any limit")
 
+add("k_blocking_end_std", MB, FW, ["C01", "C03"], cap_s=600, mem_gb=12, group="k_blocking_end_std", owner="C01",
+    encodes=["Framework::process_event (BlockingEnd)", "std::time::Instant::saturating_duration_since", "Duration += Duration"],
+    bounds="std::time clock: any accumulated blocked Duration, any instants (seconds >= 0) in any order, zero machines")
 add("k_framework_new", MB, FW, ["C12", "C01", "C07"], cap_s=900, mem_gb=16, group="k_framework_new", owner="C01", cls="B",
     encodes=["Framework::new"],
     bounds="two one-state machines with any first-state action kind (with / without limit), fractions any f64 bit pattern, any start "
